@@ -555,9 +555,12 @@ func (x *c09Runner) picks(conf *c09Conf, g *vkit.Rand) bool {
 		if maxPicks > 60000 {
 			maxPicks = 60000
 		}
+		req := reqSpec{IP: []byte{0, 0, 0, 0}}.build(gbasic{Strategy: cluster_conf.ClientIpOnly})
 		for k := 0; k < maxPicks; k++ {
-			q := reqSpec{IP: g.Bytes(4)}
-			req := q.build(gbasic{Strategy: cluster_conf.ClientIpOnly})
+			v := g.U64()
+			ip := req.ClientAddr.IP
+			ip[0], ip[1], ip[2], ip[3] = byte(v), byte(v>>8), byte(v>>16), byte(v>>24)
+			req.RetryTime, req.ErrCode, req.ErrMsg, req.Backend.SubclusterName = 0, nil, "", ""
 			b, err := bal.Balance(req)
 			if err != nil || b == nil {
 				continue
@@ -696,14 +699,12 @@ func c09Run(r *vkit.Run, h *c09Hist, t *bfe_balance.BalTable) {
 				wg.Add(1)
 				go func(w int) {
 					defer wg.Done()
-					k := 0
-					for {
+					for k := 1; k <= 60; k++ {
 						select {
 						case <-stop:
 							return
 						default:
 						}
-						k++
 						try(r, func() interface{} { return map[string]interface{}{"history": h, "step": x.step, "reader": true} }, func() {
 							if bal, err := t.Lookup(names[k%len(names)]); err == nil {
 								bal.Balance(reqSpec{IP: []byte{1, 2, byte(k), byte(w)}}.build(gbasic{Strategy: 1}))
